@@ -28,7 +28,7 @@ ASSUMPTIONS = ["states are compared as abstract values (set of atoms, map of flu
 REAL_VS_STUB = {"real": ["TrajectoryExporter/MultiAgentTrajectoryExporter.parse_plan/export/export_to_file, "
                          "TrajectoryParser.parse_trajectory (with and without problem), State.serialize/__eq__"],
                 "stub": ["__hash__ seam", "raw file sink (fault-injecting)"]}
-TECHNIQUE = "deterministic simulation: seeded trajectory histories, torn/failed/crashed trajectory export and read faults with retry; reference reader as oracle"
+TECHNIQUE = "deterministic simulation: seeded trajectory histories, torn/failed/crashed trajectory export and read faults with retry, kept parsers with aborted readings / renamed world, same-size and shorter overwrites under a constant file clock; reference reader as oracle"
 DESIGN_REF = "DESIGN.md §5 C10, §3.3"
 LEVEL_TEXT = ("seeded exploration of (trajectory x hash schedule x fault plan) for single-agent and joint trajectories, parsed "
               "back with and without the object table; sampling, not proof")
